@@ -376,6 +376,38 @@ def case_field_api(ctx, fieldkind):
     ctx.equal("extract_sym_without_identity", e2, gs)
 
 
+def case_reload_equals_fresh(ctx, route, uniform=False, hess=False):
+    """a region that is re-used for another mesh (copy(mesh=...), reload(mesh), mesh.update(points, callback=region.reload)) has
+    exactly the arrays of a region created from scratch on that mesh: nothing of the old geometry (uniform-grid shortcut,
+    hessians) survives"""
+    with ctx.concrete():
+        m0 = fem.Rectangle(n=3)
+        if hess:
+            m0 = m0.add_midpoints_edges()
+        X0 = m0.points.copy()
+    R = fem.RegionQuadraticQuad if hess else fem.RegionQuad
+    E = ctx.array("e", X0.shape, -0.1, 0.1)
+    X1 = (ctx.const_array(X0) if ctx.sym else X0) + E
+    with ctx.assume_forks(False):
+        old = R(m0, uniform=uniform, hess=hess) if uniform else R(m0, hess=hess)
+        m1 = fem.Mesh(X1, m0.cells, m0.cell_type)
+        fresh = R(m1, hess=hess)
+        if route == "copy":
+            new = old.copy(mesh=m1)
+        elif route == "reload":
+            new = old
+            new.reload(m1)
+        else:
+            new = old
+            m0.update(points=X1, callback=old.reload)
+    names = ["h", "dhdr", "dXdr", "drdX", "dV", "dhdX"] + (["d2hdXdX"] if hess else [])
+    for n in names:
+        a, b = np.asarray(getattr(new, n)), np.asarray(getattr(fresh, n))
+        ctx.check_concrete("shape_of_%s" % n, a.shape == b.shape, "%s vs %s" % (a.shape, b.shape))
+        if a.shape == b.shape:
+            ctx.equal("reused_region_%s_equals_fresh_region" % n, a, b)
+
+
 def case_families(ctx):
     """a straight-sided quad and its split into two triangles have the same area"""
     mesh = mesh_offset(ctx, "quad4")
@@ -405,6 +437,10 @@ def cases(tier):
     for k in ("quad8", "quad9", "tet10", "hex8", "hex20") + (("hex27",) if thorough else ()):
         out.append(("pairing", case_pairing, {"kind": k, "concrete": True, "max_paths": 8}))
     out.append(("families", case_families, {"max_paths": 8}))
+    for route in ("copy", "reload", "update"):
+        out.append(("reload_equals_fresh", case_reload_equals_fresh, {"route": route, "uniform": True, "max_paths": 8}))
+    out.append(("reload_equals_fresh", case_reload_equals_fresh, {"route": "reload", "hess": True, "max_paths": 8}))
+    out.append(("reload_equals_fresh", case_reload_equals_fresh, {"route": "copy", "hess": True, "max_paths": 8}))
     for fk in ("Field", "PlaneStrain", "Axisymmetric"):
         out.append(("field_api", case_field_api, {"fieldkind": fk, "max_paths": 8}))
     out.append(("copies", case_copies, {"kind": "quad8", "copy": True, "max_paths": 8}))
